@@ -62,6 +62,12 @@ func RunKVExec(c *Ctx) {
 		runs = 1000
 	}
 	keys := []string{"a", "b", "c", "/a", "a/", "./b", " c "}
+	// keys the executor reserves for its own bookkeeping, in canonical and other spellings: a transaction that
+	// names one is malformed (the block changes nothing)
+	reservedKeys := []string{"/genesis/stateroot", "genesis/stateroot", "//genesis/initialized", "/genesis/initialized/", "finalizedHeight", "/finalizedHeight", "./genesis/stateroot"}
+	isReserved := func(norm string) bool {
+		return norm == "/genesis/stateroot" || norm == "/genesis/initialized" || norm == "/finalizedHeight"
+	}
 	for r := 0; r < runs; r++ {
 		c.Tr.Reset(fmt.Sprintf("kv/%d", r), world.F{"driver": "kvexec", "ih": 1})
 		useBadger := r%10 == 9
@@ -114,6 +120,9 @@ func RunKVExec(c *Ctx) {
 				}
 				if !bad {
 					kk = ds.NewKey(kk).String() // the datastore normalises keys: "a", "/a", "a/" are one key
+					if isReserved(kk) {
+						bad = true
+					}
 				}
 				parsed = append(parsed, world.F{"k": kk, "v": vv, "bad": bad})
 			}
@@ -182,6 +191,12 @@ func RunKVExec(c *Ctx) {
 					blk = append(blk, "malformed-no-equals")
 				case 1:
 					blk = append(blk, "=novalue")
+				case 2:
+					if rng.Intn(2) == 0 {
+						blk = append(blk, fmt.Sprintf("%s=forged%d", reservedKeys[rng.Intn(len(reservedKeys))], rng.Intn(3)))
+					} else {
+						blk = append(blk, fmt.Sprintf("%s=%d", keys[rng.Intn(len(keys))], rng.Intn(3)))
+					}
 				default:
 					blk = append(blk, fmt.Sprintf("%s=%d", keys[rng.Intn(len(keys))], rng.Intn(3)))
 				}
